@@ -1,8 +1,11 @@
 """C03 — descriptors do not depend on how the molecule is written.
 
-Proof: lean/PGA/Props/C03.lean — the decomposition above the matcher is invariant under any renumbering of the atoms
-(match lists transported as *sets*, neighbour lists as multisets), for every size; Benson ring perception part is
-`_partial` (ring-order dependence on fused rings is a recorded finding, F3).
+Proof: lean/PGA/Props/C03.lean — (above the matcher) the decomposition is invariant under any renumbering of the atoms
+(match lists transported as *sets*, neighbour lists as multisets), for every size; (perception) the Benson model
+`aromatizeBenson` is invariant under rotation/reflection of every ring's atom list, under the ORDER of the ring list when
+no two eligible rings share a bond (`_partial`; the full statement is refuted in Lean on 1-methylnaphthalene = finding F3),
+and commutes with a renumbering; (end to end) every predicate of `Spec.Embeds` is transported by a renumbering of the graph
+and `decompose S` gives the same result on a renumbered graph (`C03_decompose_relabel`).
 Oracle (relational): the implementation compared with itself on equivalent inputs.  Tie: the model run on each
 spelling's own graph against the implementation on that spelling.
 """
@@ -11,10 +14,14 @@ from rdkit import Chem
 from . import common, lib_scheme as S, lib_molgen as G
 
 PROPS = ['PGA.Props.C03']
-GEN = []
+GEN = ['Chars', 'MolQuery']
 OBLIGATIONS = ['PGA.Scheme.' + t for t in [
     'C03_cnt_relabel', 'C03_centres_relabel', 'C03_groupName_relabel', 'C03_groupCount_relabel',
-    'C03_distinctSets_relabel', 'C03_remap_depends_on_counts_only', 'C03_descriptors_relabel']]
+    'C03_distinctSets_relabel', 'C03_remap_depends_on_counts_only', 'C03_descriptors_relabel']] + ['PGA.C03.' + t for t in [
+    'C03_aromatize_ring_equiv', 'C03_aromatize_rings_equiv', 'C03_aromatize_rotation_reflection',
+    'C03_aromatize_order_partial', 'C03_aromatize_order_full_fails', 'C03_aromatize_update_literal', 'C03_aromatize_relabel', 'C03_relabel_wf', 'C03_embeds_relabel',
+    'C03_decompose_relabel', 'C03_embeds_ring_presentation', 'C03_decompose_ring_presentation_partial',
+    'C03_decompose_ring_presentation_full_fails']]
 RULE = ('cases = (scheme, molecule, spelling): every molecule of the fixed pools and grown molecules, each written in several '
         'ways (random atom order incl. branch order and ring-closure choices, explicit vs implicit H, Kekule vs aromatic, '
         'molecule object vs SMILES; all atom permutations for <= 5 heavy atoms in the thorough tier), for the nine shipped '
@@ -67,13 +74,65 @@ def compare(ctx, name, lib, base_smi, base, other, other_res, form):
     ctx.violation('equivalent inputs give different descriptors', inp, base, other_res, finding=finding)
 
 
+AROM_POOL = ['c1ccccc1', 'Cc1ccccc1', 'c1ccc2ccccc2c1', 'Cc1cccc2ccccc12', 'c1ccc2c(C)cccc2c1', 'c1ccc2cc3ccccc3cc2c1',
+             'c1ccc2c(c1)ccc1ccccc12', 'c1ccc(cc1)c1ccccc1', 'C1=CC=CC=C1C1=CC=CC=C1', 'c1ccc2c(c1)CCC2', 'c1ccc2c(c1)CCCC2',
+             'C1=CC=CCC1', 'C1=CCC=CC1', 'c1ccncc1', 'c1ccc2ncccc2c1', 'Oc1ccccc1', 'C1CCCCC1', 'c1cc2cccc3ccc4cccc1c4c32',
+             'C1=CC2=CC=CC=C2C=C1', 'C1=CC=C2C=CC=CC2=C1', 'c1ccc2[nH]ccc2c1', 'O=C1C=CC(=O)C=C1', 'C1=CC=C[CH]C1', '[CH2]c1ccccc1',
+             'c1ccc2c(c1)oc1ccccc12', 'C1=CC=C(C=C1)[Pt]', 'c1ccccc1O~[Pt]',
+             'C1=CC=CC=CC1', 'C1=CC=CC=CC=C1', 'c1ccc2cccc2cc1', 'C1=CC=CCC=C1', 'C1=CC=CC=CC=CC=C1']
+
+
+def aromatize_tie(ctx, spellings):
+    """The implementation's `_aromatization_Benson` called directly on the raw graph of each spelling vs the Lean model
+    `aromatizeBenson` (`c03.aromatize`): aromatic flags and bond kinds, plus which rings the model finds eligible."""
+    from pgradd.GroupAdd import Scheme as M
+    from . import lib_mol
+    reqs, meta = [], []
+    for sp in spellings:
+        mol = S.prepare(sp, aromatize=False)
+        if mol is None:
+            continue
+        try:
+            g = lib_mol.mol_to_json(mol)
+            M._aromatization_Benson(mol)
+            g2 = lib_mol.mol_to_json(mol)
+        except lib_mol.UnsupportedGraph:
+            continue
+        except Exception as e:
+            ctx.violation('the aromatic perception escapes with an exception', {'smiles': sp}, None, type(e).__name__)
+            continue
+        if g2['rings'] != g['rings']:
+            raise common.MachineryError('A-graph: ring list changes during the perception for %r' % sp)
+        reqs.append({'op': 'c03.aromatize', 'mol': g})
+        meta.append((sp, {'arom': [a[3] for a in g2['atoms']], 'kinds': [b[2] for b in g2['bonds']]}))
+    replies = ctx.model(reqs)
+    if replies is None:
+        return
+    for (sp, impl), rep in zip(meta, replies):
+        ctx.count('corr_c03.aromatize')
+        ctx.count('aromatize_eligible_rings_%d' % sum(rep['eligible']))
+        if sum(rep['eligible']) >= 2:
+            # guard of C03_aromatize_order_partial on graphs where the ring order could matter
+            ctx.count('aromatize_order_guard_%s' % ('holds' if rep['disjoint'] else 'fails(F3 class)'))
+        if not (rep['wf'] and rep['bonded']):
+            raise common.MachineryError('A-graph: ill-formed graph for %r' % sp)
+        if impl['arom'] != rep['arom'] or impl['kinds'] != rep['kinds']:
+            ctx.disagree('corr:c03.aromatize', {'smiles': sp}, impl, {'arom': rep['arom'], 'kinds': rep['kinds']})
+
+
 def run(ctx):
     rng = ctx.rng
     libs_ = S.load_schemes()
+    arom = []
+    for smi in AROM_POOL + G.FIXED_GAS[:60] + [G.gen_smiles(rng, 'gas', 12) for _ in range(ctx.n(40, 600))]:
+        arom.append(smi)
+        arom.extend(G.spellings(rng, smi, ctx.n(4, 12)))
+    aromatize_tie(ctx, arom)
     for fname, rec in common.load_corpus('C03'):
         ctx.count('corpus')
         replay(ctx, rec)
     batch = []
+    full = S.FullTie(ctx, max_cases=ctx.n(250, 3000))      # per library
     for name, lib in libs_:
         kind = 'gas' if name in ('BensonGA', 'PPY') else 'surface'
         mols = list(G.FIXED_GAS if kind == 'gas' else G.FIXED_SURFACE + G.FIXED_GAS[:20])
@@ -100,6 +159,10 @@ def run(ctx):
                 mol = S.prepare(sp)
                 if mol is not None and len(batch) < ctx.n(600, 6000):
                     batch.append((S.scheme_input(lib.scheme, mol), r, {'scheme': name, 'smiles': sp}))
+                # second tie: the end-to-end model on this spelling's own raw graph (its own atom numbering and ring order)
+                if not r.get('err', '').startswith('internal'):
+                    full.add(lib, sp, r, {'scheme': name, 'smiles': sp}, S.impl_atoms(lib) if 'ok' in r else None,
+                             S.hook_graph(lib) if 'ok' in r else None)
             # (b) molecule object vs SMILES
             m = Chem.MolFromSmiles(smi)
             if m is not None:
@@ -122,11 +185,18 @@ def run(ctx):
                         ctx.case((name, smi, tag), None)
                         ctx.count('mol_explicit_h')
                         compare(ctx, name, lib, smi, base, mh, rh, tag)
+                # where do the relabelling theorems literally apply?  (measurement, reported in the evidence)
+                rel = S.renumbering_relation(rng, smi)
+                if rel is not None:
+                    ctx.count('renumbered_graph_is_' + rel)
                 # (c) renumbered molecule objects
                 m2, s2 = G.renumbered(rng, smi)
                 r2 = S.impl_descriptors(lib, m2)
                 ctx.case((name, s2, 'mol-renumbered'), None)
                 compare(ctx, name, lib, smi, base, m2, r2, 'mol-renumbered')
+                if not r2.get('err', '').startswith('internal'):
+                    full.add(lib, m2, r2, {'scheme': name, 'smiles': s2, 'form': 'mol-renumbered'},
+                             S.impl_atoms(lib) if 'ok' in r2 else None, S.hook_graph(lib) if 'ok' in r2 else None)
                 # (d) all permutations for small molecules
                 nh = m.GetNumAtoms()
                 if ctx.thorough() and 2 <= nh <= 5:
@@ -137,6 +207,8 @@ def run(ctx):
                         ctx.case((name, sp), None)
                         ctx.count('permutations')
                         compare(ctx, name, lib, smi, base, sp, r, 'permutation')
+        full.run()
+    full.run()
     replies = ctx.model([b[0] for b in batch])
     if replies is not None:
         for (req, impl, where), rep in zip(batch, replies):
@@ -167,12 +239,15 @@ def replay(ctx, rec):
     return len(ctx.violations) + sum(k['count'] for k in ctx.known_seen.values()) == before
 
 
-LEVEL_TEXT = ('Lean 4 theorem: for every renumbering of the atoms (any permutation, any molecule size) with the match lists transported '
-              'as sets and the neighbour lists as multisets, the model decomposition returns the same count for every name and fails '
-              'in the same cases — proved through the declarative characterisation (C02), C19 (canonical names ignore order) and '
-              'cardinality-preservation lemmas. That matches of a relabelled graph are the relabelled matches is C08. The implementation '
-              'is compared with itself on equivalent spellings (relational oracle). Ring-order dependence of Benson perception on fused C6 rings is a known finding (F3).')
+LEVEL_TEXT = ('Lean 4 theorems: for every renumbering of the atoms of a graph (any bijection, any size; bonds listed in any order, rings in the same order) '
+              'the end-to-end model decompose (Benson perception, reader, matcher, decomposition) returns the same count for every name and fails in the same '
+              'cases (C03_decompose_relabel) — through: every atom/bond/constraint/stereo/molecule predicate of the embedding relation is invariant '
+              '(C03_embeds_relabel), the perception commutes with the renumbering (C03_aromatize_relabel), the decomposition above the matcher depends on '
+              'match sets and neighbour multisets only (C03_descriptors_relabel, C19). The perception is invariant under rotation/reflection of ring atom lists '
+              'and under the order of the ring list when no two eligible rings share a bond (C03_aromatize_order_partial). The implementation is compared with '
+              'itself on equivalent spellings (relational oracle), with the end-to-end model on every spelling\'s own graph, and its perception with the model directly.')
 LEVEL_NOTE = ('Trusted: Lean kernel, standard axioms, RDKit for producing equivalent spellings and graphs (A-graph). Partial: invariance of the '
-              'Benson aromatic perception under ring ORDER is false of the code for fused rings (F3, recorded); rotation/reflection of a ring and '
-              'renumbering are covered.')
+              'Benson aromatic perception under ring ORDER is false of the code for fused rings (F3, recorded; refuted in Lean at the 1-methylnaphthalene graph); '
+              'rotation/reflection of a ring, ring order for bond-disjoint eligible rings, and renumbering are proved. Hypotheses of the end-to-end theorem: well-formed '
+              'graph, no `*` (FM1), candidate counts below the cap (F30), chain-free remaps.')
 TECHNIQUE = 'Lean 4 proof (relabelling invariance of the decomposition model) + relational differential run of the implementation on equivalent inputs'
